@@ -54,7 +54,7 @@ def strategy(tier):
         },
         st.integers(1, 5),
         st.lists(st.tuples(st.integers(0, 4), st.lists(st.integers(0, 4), max_size=5)), max_size=5),
-        st.integers(0, 11), prior, st.lists(st.integers(0, 4), max_size=3), st.integers(0, 3),
+        st.integers(0, 12), prior, st.lists(st.integers(0, 4), max_size=3), st.integers(0, 3),
     )
     m = st.builds(
         lambda n, cells, cls, prior, bad, badpos, pu: {
@@ -63,7 +63,7 @@ def strategy(tier):
         },
         st.integers(0, 5),
         st.lists(st.lists(st.integers(0, 13), max_size=5), max_size=5),
-        st.integers(0, 11), prior, st.sampled_from([0, 0, 0, 1, 2, 3, 4]), st.integers(0, 7), st.lists(st.integers(0, 4), max_size=3),
+        st.integers(0, 12), prior, st.sampled_from([0, 0, 0, 1, 2, 3, 4]), st.integers(0, 7), st.lists(st.integers(0, 4), max_size=3),
     )
     return st.one_of(d, m)
 
